@@ -151,6 +151,24 @@ def assignments_part(chk: Check, drv: Driver):
         texts.append(f"a(i) = {lit} * b(i)")
     texts += ["a(i) = a(i) + 1", "a(i) = b(a)", "a(i) = b(i) + b(i,j)", "a(i) = b(i) - b()", "a(i) = b(i,j) * c(j,b)", "a(a) = b(i)",
               "i(i) = b(i)", "a(i) = b(i) * i()", "a(i,i) = b(i,i)", "a(i) = b(b)", "a() = a()", "a(i) = b(i) + c(i) * a(i)"]
+    # validation stream: a small pool in which names collide (a name used as tensor and as index, a tensor
+    # referenced several times with different index lists / orders, the target reused), 1-3 references
+    pool_names = ["A", "B", "C"]
+    pool_idx = ["i", "j", "A", "B", "C"]
+    refs = []
+    for nm in pool_names:
+        refs.append(f"{nm}()")
+        for x in pool_idx:
+            refs.append(f"{nm}({x})")
+            for y in pool_idx:
+                refs.append(f"{nm}({x},{y})")
+    targets = ["T(i)", "T(i,j)", "A(i)", "T(C)", "T()"]
+    for r1 in refs:
+        for r2 in rng.sample(refs, 12 if quick else 93):
+            texts.append(f"{rng.choice(targets)} = {r1} {rng.choice('+-*')} {r2}")
+    for _ in range(4000 if quick else 60000):
+        r1, r2, r3 = rng.choice(refs), rng.choice(refs), rng.choice(refs)
+        texts.append(f"{rng.choice(targets)} = {r1} {rng.choice('+-*')} {r2} {rng.choice('+-*')} {r3}")
     texts.append("a() = " + "9" * 5000)
     # deep nesting and long spines (the model's recursion fuel must cover them)
     for d in (4, 5, 8, 20, 60):
